@@ -13,8 +13,8 @@ from ..refprinter import tokenize
 from octoprint_excluderegion.StreamProcessor import StreamProcessor
 from octoprint_excluderegion.GcodeHandlers import GcodeHandlers
 
-LEAD = re.compile(r"^[ ]*(?:[Nn]\d+[ ]*)?")
-TAILCS = re.compile(r"[ ]*\*\d+[ ]*$")
+LEAD = re.compile(r"^[ \t]*(?:[Nn]\d+[ \t]*)?")
+TAILCS = re.compile(r"[ \t]*\*\d+[ \t]*$")
 
 
 def strip_comment(line):
@@ -31,7 +31,7 @@ def strip_comment(line):
 
 def extract(line):
     """Harness's own line reader: (kind, payload) with kind in {'blank', 'gcode', 'at', 'other'}."""
-    body = strip_comment(line.rstrip("\r\n")).strip(" ")
+    body = strip_comment(line.rstrip("\r\n")).strip(" \t")     # OctoPrint: strip_comment(line).strip()
     if not body:
         return "blank", None
     if body.startswith("@"):
@@ -40,7 +40,7 @@ def extract(line):
     m = LEAD.match(body)
     cmd = TAILCS.sub("", body[m.end():]) if m else body
     if tokenize(cmd)[0] is not None and re.match(r"^[GgMmTt][ ]*\d", cmd):
-        return "gcode", cmd.strip(" ")
+        return "gcode", cmd.strip(" \t")
     return "other", body
 
 
@@ -107,18 +107,25 @@ class C20(Monitor):
                 cmd = st[1]
                 if rnd.random() < 0.05:
                     cmd = wild_command(rnd)
+                elif rnd.random() < 0.04:
+                    # display text with escaped characters: "\\;" is text, not a comment; after "\\\\" a ';' starts one
+                    cmd = rnd.choice(["M117 Layer %d\\; 40%% done", "M117 a\\\\;b c %d", "M117 %d\\;\\;x", "M117 path c:\\\\tmp %d",
+                                      "M117 %d \\; ; real comment"]) % rnd.randint(0, 99)
+                elif rnd.random() < 0.04 and " " in cmd:
+                    cmd = cmd.replace(" ", rnd.choice(["\t", " \t", "  "]))
                 s = cmd
                 if rnd.random() < 0.15:
                     n += 1
                     s = "N%d %s" % (n, s)
                     s = s + rnd.choice(["", " "]) + "*" + str(checksum(s))
                 if rnd.random() < 0.15:
-                    s = " " * rnd.randint(1, 4) + s
+                    s = "".join(rnd.choice(" \t" if rnd.random() < 0.3 else " ") for _ in range(rnd.randint(1, 4))) + s
                 if rnd.random() < 0.2:
-                    s = s + rnd.choice([" ; a comment", ";x", " ;", "   "])
+                    s = s + rnd.choice([" ; a comment", ";x", " ;", "   ", "\t", "\t; tabbed comment"])
                 lines.append(s + eol)
             elif st[0] == "at":
-                lines.append("@%s %s%s" % (st[1], st[2], rnd.choice(["", " ; c"])) + eol)
+                sep = rnd.choice([" ", " ", " ", "\t", "  ", " \t"])
+                lines.append(rnd.choice(["", "", "", " ", "\t"]) + "@%s%s%s%s" % (st[1], sep, st[2], rnd.choice(["", " ; c", "\t"])) + eol)
             if rnd.random() < 0.08:
                 lines.append(rnd.choice(["", "   ", "; comment only", "  ; indented comment", "hello world", "ok"]) + eol)
         if lines and rnd.random() < 0.3:
